@@ -460,6 +460,47 @@ pub fn gen(purpose: Purpose, tier: Tier, seed: u64, index: u64) -> Workload {
             w.residue = w.residue.min(127);
         }
     }
+    // Two size classes that the small default shapes cannot reach (swarm style, ~8 % each):
+    // * deep queue - many tiny blocks with the shipped hashing-queue capacity, so that the hashing
+    //   thread can really be 16 blocks behind the feeder (the capacity knob only shrinks the channel,
+    //   it cannot make code that compares against the constant 16 take its "queue is full" path);
+    // * large block - blocks x channels well above 16384 scalars (buffer-size thresholds in the
+    //   conversion and hashing paths), few blocks, cheap configuration.
+    match r.below(25) {
+        0 | 1 => {
+            w.block = *r.pick(&[32usize, 33, 48]);
+            w.channels = 1 + r.below(2);
+            w.sig_kinds.truncate(w.channels);
+            w.nfull = 17 + r.below(if tier == Tier::Thorough { 44 } else { 24 });
+            w.residue = w.residue.min(w.block - 1);
+            w.cfg.use_lpc = false;
+            w.hashq_cap = 16;
+            if w.workers.is_none() {
+                w.workers = Some(1 + r.below(3));
+                w.env_workers = None;
+            }
+        }
+        2 | 3 => {
+            w.block = *r.pick(&[2048usize, 4096, 4608, 5000, 8192, 16384, 32767]);
+            w.nfull = 1 + r.below(2);
+            w.residue = *r.pick(&[0usize, 1, 1000, w.block - 1]);
+            w.cfg.use_lpc = false;
+            w.cfg.use_fixed = r.chance(0.3);
+            if w.cfg.rice_max + 8 < w.bits {
+                w.cfg.rice_max = 14;
+            }
+            for k in &mut w.sig_kinds {
+                if matches!(*k, 4 | 6) {
+                    *k = 10;
+                }
+            }
+            if w.workers.is_none() {
+                w.workers = Some(1 + r.below(3));
+                w.env_workers = None;
+            }
+        }
+        _ => {}
+    }
     match purpose {
         Purpose::Equivalence => {}
         Purpose::StreamInfo => {
